@@ -76,6 +76,16 @@ pub fn bytes_n(n: usize) -> BoxedStrategy<HexBytes> {
             v[bit / 8] ^= 1 << (bit % 8);
             v
         }),
+        // 128-bit lanes drawn from two values in every arrangement (AABB, ABAB, ABBA, AAAB, ...): code that
+        // special-cases equal lanes (splat fast paths, caches keyed on part of the data) needs partial equality
+        if n >= 32 && n % 16 == 0 { 2 } else { 0 } => (prop::collection::vec(any::<u8>(), 32..=32), any::<u16>()).prop_map(move |(ab, arr)| {
+            let mut v = Vec::with_capacity(n);
+            for l in 0..n / 16 {
+                let which = ((arr >> l) & 1) as usize;
+                v.extend_from_slice(&ab[16 * which..16 * which + 16]);
+            }
+            v
+        }),
     ]
     .prop_map(HexBytes)
     .boxed()
